@@ -83,6 +83,7 @@ macro_rules! dispatch {
             "C10" => $f(&props::c10::C10 $(, $arg)*),
             "C20" => $f(&props::c20::C20 $(, $arg)*),
             "C11" => $f(&props::c11::C11 $(, $arg)*),
+            "C09" => $f(&props::c09::C09 $(, $arg)*),
             other => {
                 eprintln!("unknown property {}", other);
                 3
